@@ -44,6 +44,11 @@ func genC16(p *Plan, r *RNG) {
 		cuts, reads := genCuts(r)
 		p.Streams = []StreamCut{{Conn: "*", Cuts: cuts, Reads: reads, Coalesce: r.Chance(1, 2)}}
 	}
+	if r.Chance(1, 6) {
+		// a bundled generator: listeners bound with SO_REUSEPORT, outgoing connections from the relayed address
+		p.Cfg.Extra["real_gen"] = int64(r.PickInt([]int{1, 1, 3, 8}))
+		p.Flavor += "+bundled-gen"
+	}
 	for i := 0; i < nc; i++ {
 		p.Ops = append(p.Ops, Op{Actor: p.Clients[i].ID, Kind: "allocate", At: gap(int64(r.Range(1, 300)) * ms), A: OpArgs{Lifetime: -1, Transport: "tcp"}})
 	}
